@@ -133,6 +133,14 @@ func (env *SpecEnv) evalIdent(e *SExpr) Val {
 			}
 		}
 	}
+	if strings.HasPrefix(e.Name, "idx$") {
+		// hidden counter of a `for _, x := range` loop
+		for o, v := range env.st().vars {
+			if o.Name() == e.Name {
+				return v
+			}
+		}
+	}
 	if env.homePkg != nil {
 		if obj := env.homePkg.Scope().Lookup(e.Name); obj != nil {
 			switch o := obj.(type) {
